@@ -149,11 +149,24 @@ func (s *vfH2Stream) intents(r *verifkit.Rand) (req, resp []vfIntent) {
 		req = append(req, vfIntent{Dir: 0, Kind: "rst", St: s})
 		return req, nil
 	}
+	if s.End == "rst-client-after-end" {
+		// the client finishes its request (END_STREAM) and then gives up: RST_STREAM after half-close
+		req = append(req, vfIntent{Dir: 0, Kind: "rst", St: s})
+	}
 	var respBody []byte
 	for _, m := range s.RespMsgs {
 		respBody = append(respBody, vfEnvelope(0, m)...)
 	}
 	switch s.End {
+	case "rst-client-after-end":
+		// whatever part of the response got out before the reset (only bidi streams interleave)
+		if s.Bidi {
+			resp = append(resp, vfIntent{Dir: 1, Kind: "hresp", St: s})
+			if len(respBody) > 0 {
+				resp = append(resp, vfIntent{Dir: 1, Kind: "dresp", St: s, Data: respBody[:1+r.Intn(len(respBody))]})
+			}
+		}
+		return req, resp
 	case "rst-before-headers", "refused-retry":
 		resp = append(resp, vfIntent{Dir: 1, Kind: "rst", St: s})
 		return req, resp
@@ -254,7 +267,7 @@ func vfGenExchange(r *verifkit.Rand, allowCont bool) *vfExchange {
 			s.Name = ""
 		}
 		s.ReqTrail = r.Chance(1, 10)
-		s.End = verifkit.Pick(r, []string{"trailers", "trailers", "trailers", "data-end", "rst-server", "rst-client", "rst-before-headers", "refused-retry"})
+		s.End = verifkit.Pick(r, []string{"trailers", "trailers", "trailers", "data-end", "rst-server", "rst-client", "rst-client-after-end", "rst-before-headers", "refused-retry"})
 		s.RstCode = verifkit.Pick(r, []http2.ErrCode{http2.ErrCodeCancel, http2.ErrCodeInternal, http2.ErrCodeNo, http2.ErrCodeProtocol, http2.ErrCodeEnhanceYourCalm})
 		if s.End == "refused-retry" {
 			s.RstCode = http2.ErrCodeRefusedStream
@@ -592,7 +605,11 @@ func vfEventsMatch(got, want []string) bool {
 }
 
 // vfPlay pushes the exchange through a traced connection on one side.
+// vfCloseEarlyAt: step index at which vfPlay closes the traced connection and keeps feeding it (-1: never).
+var vfCloseEarlyAt = -1
+
 func vfPlay(ex *vfExchange, isServer bool, r *verifkit.Rand, coll Collector) (readOK, writeOK bool, sc *vfScriptConn, pn *verifkit.Panic, detail string) {
+	closedEarly := false
 	sc = &vfScriptConn{writeFail: -1}
 	conn := TracingHTTP2Conn(sc, isServer, coll)
 	readOK, writeOK = true, true
@@ -606,8 +623,36 @@ func vfPlay(ex *vfExchange, isServer bool, r *verifkit.Rand, coll Collector) (re
 		// the peer's last bytes arrive in the same Read as io.EOF - only when nothing else follows on the connection
 		eofWithData := r.Chance(1, 2) && lastRead == len(ex.Steps)-1
 		for si, st := range ex.Steps {
+			if vfCloseEarlyAt >= 0 && si == vfCloseEarlyAt {
+				// the application closes the connection (or a write failed) while the peer's frames keep arriving:
+				// from here on only "no panic" is judged
+				_ = conn.Close()
+				closedEarly = true
+			}
 			isRead := (st.Dir == 0) == isServer // the server reads requests, the client reads responses
 			data := st.Bytes
+			if closedEarly {
+				if isRead {
+					sc.mu.Lock()
+					sc.rbuf = append(sc.rbuf, data...)
+					sc.mu.Unlock()
+					buf := make([]byte, 64)
+					for {
+						sc.mu.Lock()
+						left := len(sc.rbuf)
+						sc.mu.Unlock()
+						if left == 0 {
+							break
+						}
+						if _, err := conn.Read(buf); err != nil {
+							break
+						}
+					}
+				} else {
+					_, _ = conn.Write(data)
+				}
+				continue
+			}
 			for len(data) > 0 {
 				n := 1 + r.Intn(len(data))
 				chunk := data[:n]
@@ -701,6 +746,16 @@ func TestVerifC15Exchanges(t *testing.T) {
 				if !readOK || !writeOK {
 					rep.Violation("h2/not-transparent", detail, w)
 				}
+				if sched == 0 && len(ex.Steps) > 3 {
+					// once more, closing the connection at a random step while the frames keep coming: must not crash
+					vfCloseEarlyAt = 2 + verifkit.Stream("c15close", si).Intn(len(ex.Steps)-2)
+					_, _, _, pn2, _ := vfPlay(ex, isServer, verifkit.Stream("c15part", si, 99), &vfCountingCollector{})
+					vfCloseEarlyAt = -1
+					rep.Count("closed_early_replays", 1)
+					if pn2 != nil {
+						rep.Violation("h2/panic-after-close/"+pn2.Site, "the connection tracer panicked when frames kept arriving after Close: "+pn2.Value, map[string]any{"input": w, "stack": verifkit.Trunc(pn2.Stack, 3000)})
+					}
+				}
 				want := vfExpectedTraces(ex, order)
 				coll.mu.Lock()
 				for name, exp := range want {
@@ -766,7 +821,7 @@ func TestVerifC15Exchanges(t *testing.T) {
 		}
 	}
 	rep.Sample(map[string]any{"streams": "1: named, HEADERS+CONTINUATION, 2 request messages cut across 3 DATA frames, response trailers; 3: refused then retried as 5", "expect": "one trace for stream 1 with its own headers; one trace (of stream 5) for the retried name"})
-	for _, k := range []string{"stream:trailers", "stream:rst-server", "stream:rst-client", "stream:rst-before-headers", "stream:retry", "stream:goaway", "scripts_continuation"} {
+	for _, k := range []string{"stream:trailers", "stream:rst-server", "stream:rst-client", "stream:rst-client-after-end", "stream:rst-before-headers", "stream:retry", "stream:goaway", "scripts_continuation"} {
 		rep.RequireMin(k, 10)
 	}
 }
